@@ -54,7 +54,8 @@ _READS = ['columns_values', 'values', 'shape', 'repr', 'dtypes', 'columns_len', 
 
 
 def probes(ctx):
-    return []
+    start = {'rows': [0, 1], 'row_kind': 'auto', 'cols': ['a', 'b'], 'col_kind': 'str', 'dtypes': ['int64', 'int64'], 'cells': [[1, 2], [3, 4]], 'start_from': 'framego'}
+    return [{'t': 'frame', 'start': start, 'steps': [('grow', 'extend_items_dup_mid', ['n0', 'n1', 'n2'], 'int64', [[1, 2], [3, 4], [5, 6]], 7)]}]
 
 
 def _tame(v):
